@@ -15,12 +15,19 @@ def run(ctx):
     ctx.rule("R07.3", "every normal exit of the job task raises the job-gone flag, and the main select! cannot panic with all branches disabled")
     ctx.rule("R07.4", "Flag::raise stores then wakes; Flag::poll registers its waker and re-checks the flag before returning Pending")
     ctx.rule("R07.5", "no Clone future of the supervisor parks its waiter in a single-slot AtomicWaker shared between clones")
+    ctx.rule("R07.7", "timer expiry re-injects the control through Timer::to_control (Stop / ContinueTryGracefulRestart with the timer's own flag) on both "
+                      "expiry paths of recv, with the timer cleared (shared with R06.2 / R06.3)")
     ctx.rule("R07.6", "a Ticket selects over job-gone and control-done, shares the control's own flag, and is pre-resolved for a dead job")
     try:
         B = jobtask.Bodies(ctx, "R07.1")
         jobrules.message_flag(ctx, B)
         jobrules.holder_discipline(ctx, B)
         jobrules.task_exit(ctx, B)
+        jobrules.recv_gating(ctx, B, "R07.7")
+    except Skip:
+        pass
+    try:
+        jobrules.timer_summaries(ctx, "R07.7")
     except Skip:
         pass
     for fn in (jobrules.wake_protocol, jobrules.multi_waiter, jobrules.ticket_shape):
